@@ -25,7 +25,7 @@ VARIABLES tid, pos, phase, kind, failed
 
 vars == <<tid, pos, phase, kind, failed>>
 
-Objs == {"A1", "A2", "B1", "B2", "L"}     \* "L": rows of the log entity created inside hooks (any of them)
+Objs == {"A1", "A2", "B1", "B2", "L1", "L2", "L3", "L4", "L5", "L6", "L7", "L8", "L"}   \* "L<k>": the k-th log object in flight, created inside a before_insert hook of A
 Kinds == {"insert", "update", "delete"}
 
 Evs == Traces[tid].evs
